@@ -408,9 +408,9 @@ func (sc *serverConn) readLoop() (err error) {
 		case FrameSettings:
 			st := fr.Body().(*Settings)
 			if !st.IsAck() { // if it has ack, just ignore
-				sc.handleSettings(st)
-				// forward to handleStreams so the INITIAL_WINDOW_SIZE delta is
-				// applied to open streams in frame order.
+				// The settings are applied and acknowledged by handleStreams:
+				// it owns the encoder, whose table size they change, and the
+				// stream windows, and it sees them in frame order.
 				if !sc.forward(fr) {
 					return errConnClosed
 				}
@@ -723,6 +723,8 @@ loop:
 				switch fr.Type() {
 				case FrameSettings:
 					st := fr.Body().(*Settings)
+					sc.handleSettings(st)
+
 					if st.hasWindowSize {
 						delta := int64(int32(st.windowSize)) - int64(curInitialWindow)
 						curInitialWindow = int32(st.windowSize)
